@@ -156,6 +156,9 @@ structure Helper where
   name : String
   recognised : Bool
   param : String
+  /-- where every global name the function uses comes from (`translate/cores.py` resolves imports to definitions):
+  `(name, "def <file>:<name>" | "class <file>:<name>" | "module <m>" | "builtin" | "from <file>:<name>")`, sorted by name -/
+  origins : List (String × String)
   body : List Stmt
   ret : List VEx
   deriving DecidableEq, Repr
@@ -167,6 +170,9 @@ structure PeelIR where
   params : List String
   /-- default values of trailing parameters, as source text (`peel=False`) -/
   defaults : List (String × String)
+  /-- where every global name the function uses comes from (`translate/cores.py` resolves imports to definitions):
+  `(name, "def <file>:<name>" | "class <file>:<name>" | "module <m>" | "builtin" | "from <file>:<name>")`, sorted by name -/
+  origins : List (String × String)
   /-- statements before `while True:` -/
   pre : List Stmt
   body : List Stmt
@@ -354,11 +360,13 @@ def runPeel (hs : List Helper) (ir : PeelIR) (fuel : Nat) (args : List (Obj n)) 
 
 def refDegreesUnd : Helper :=
   { name := "degrees_und", recognised := true, param := "CIJ",
+    origins := [("binarize", "def bct/utils/other.py:binarize"), ("np", "module numpy")],
     body := [.bindM "CIJ" (.binarize (.ref "CIJ"))],
     ret := [.sum (.ref "CIJ") 0] }
 
 def refDegreesDir : Helper :=
   { name := "degrees_dir", recognised := true, param := "CIJ",
+    origins := [("binarize", "def bct/utils/other.py:binarize"), ("np", "module numpy")],
     body := [.bindM "CIJ" (.binarize (.ref "CIJ")),
              .bindV "id" (.sum (.ref "CIJ") 0),
              .bindV "od" (.sum (.ref "CIJ") 1),
@@ -366,7 +374,7 @@ def refDegreesDir : Helper :=
     ret := [.ref "id", .ref "od", .ref "deg"] }
 
 def refStrengthsUnd : Helper :=
-  { name := "strengths_und", recognised := true, param := "CIJ", body := [], ret := [.sum (.ref "CIJ") 0] }
+  { name := "strengths_und", recognised := true, param := "CIJ", origins := [("np", "module numpy")], body := [], ret := [.sum (.ref "CIJ") 0] }
 
 def refHelpers : List Helper := [refDegreesUnd, refDegreesDir, refStrengthsUnd]
 
@@ -386,18 +394,20 @@ def kcoreBody (call : Stmt) : List Stmt :=
     .ifFlag "peel" (.appendIdx "peelorder" "ff"),
     .ifFlag "peel" (.appendLevel "peellevel" "iter" "ff") ]
 
-def refKcore (name : String) (call : Stmt) : PeelIR :=
+def refKcore (name : String) (call : Stmt) (helper : String) : PeelIR :=
   { name := name, recognised := true, params := ["CIJ", "k", "peel"], defaults := [("peel", "False")],
+    origins := [("BibTeX", "from bct/due.py:BibTeX"), ("HAGMANN2008", "from bct/citations.py:HAGMANN2008"), (helper, "def bct/algorithms/degree.py:" ++ helper), ("due", "from bct/due.py:due"), ("len", "builtin"), ("np", "module numpy")],
     pre := [.ifFlag "peel" (.initLists ["peelorder", "peellevel"]), .setNat "iter" 0, .bindM "CIJkcore" (.copy (.ref "CIJ"))],
     body := kcoreBody call,
     post := [.count "kn" (.lt (.lit 0) (.ref "deg"))],
     flag := some "peel", retFlag := ["CIJkcore", "kn", "peelorder", "peellevel"], ret := ["CIJkcore", "kn"] }
 
-def refKcoreBu : PeelIR := refKcore "kcore_bu" (.call ["deg"] "degrees_und" (.ref "CIJkcore"))
-def refKcoreBd : PeelIR := refKcore "kcore_bd" (.call ["id", "od", "deg"] "degrees_dir" (.ref "CIJkcore"))
+def refKcoreBu : PeelIR := refKcore "kcore_bu" (.call ["deg"] "degrees_und" (.ref "CIJkcore")) "degrees_und"
+def refKcoreBd : PeelIR := refKcore "kcore_bd" (.call ["id", "od", "deg"] "degrees_dir" (.ref "CIJkcore")) "degrees_dir"
 
 def refScoreWu : PeelIR :=
   { name := "score_wu", recognised := true, params := ["CIJ", "s"], defaults := [],
+    origins := [("np", "module numpy"), ("strengths_und", "def bct/algorithms/degree.py:strengths_und")],
     pre := [.bindM "CIJscore" (.copy (.ref "CIJ"))],
     body := [ .call ["str"] "strengths_und" (.ref "CIJscore"),
               .whereV "ff" (peelCond "str" "s"),
@@ -439,6 +449,9 @@ structure CorenessIR where
   name : String
   recognised : Bool
   param : String
+  /-- where every global name the function uses comes from (`translate/cores.py` resolves imports to definitions):
+  `(name, "def <file>:<name>" | "class <file>:<name>" | "module <m>" | "builtin" | "from <file>:<name>")`, sorted by name -/
+  origins : List (String × String)
   pre : List CStmt
   /-- `for <loopVar> in range(<bound>)` -/
   loopVar : String
@@ -543,6 +556,7 @@ def runCoreness (ir : CorenessIR) (kcore : AMat V n → Nat → Option (AMat V n
 
 def refCorenessBu : CorenessIR :=
   { name := "kcoreness_centrality_bu", recognised := true, param := "CIJ",
+    origins := [("BibTeX", "from bct/due.py:BibTeX"), ("HAGMANN2008", "from bct/citations.py:HAGMANN2008"), ("due", "from bct/due.py:due"), ("float", "builtin"), ("kcore_bu", "def bct/algorithms/core.py:kcore_bu"), ("len", "builtin"), ("np", "module numpy"), ("range", "builtin")],
     pre := [ .len "N" "CIJ",
              .bindM "CIJund" (.addT (.ref "CIJ") (.ref "CIJ")),
              .ifAnyGt (.ref "CIJund") 1 (.bindM "CIJ" (.gtNum (.ref "CIJund") 0)),
@@ -555,6 +569,7 @@ def refCorenessBu : CorenessIR :=
 
 def refCorenessBd : CorenessIR :=
   { name := "kcoreness_centrality_bd", recognised := true, param := "CIJ",
+    origins := [("BibTeX", "from bct/due.py:BibTeX"), ("HAGMANN2008", "from bct/citations.py:HAGMANN2008"), ("due", "from bct/due.py:due"), ("kcore_bd", "def bct/algorithms/core.py:kcore_bd"), ("len", "builtin"), ("max", "builtin"), ("np", "module numpy"), ("range", "builtin")],
     pre := [ .len "N" "CIJ",
              .zeros "coreness" (.dim "N"),
              .zeros "kn" (.max (.sub (.mul (.lit 2) (.dim "N")) (.lit 1)) (.lit 0)) ],
